@@ -193,10 +193,10 @@ def r7(ctx, prog):
 
 def run(ctx):
     prog = extract(SCOPE)
-    r1(ctx, prog)
-    r2(ctx, prog)
-    r3(ctx, prog)
-    r4(ctx, prog)
-    r5(ctx, prog)
-    r7(ctx, prog)
+    ctx.guard(r1, ctx, prog)
+    ctx.guard(r2, ctx, prog)
+    ctx.guard(r3, ctx, prog)
+    ctx.guard(r4, ctx, prog)
+    ctx.guard(r5, ctx, prog)
+    ctx.guard(r7, ctx, prog)
     return prog
